@@ -98,9 +98,17 @@ def _mode_fields(I, mode, digits):
 TYPES = ("D", "0", "AE", "zz")  # application, session, two-character standard, custom
 
 
-def h_flat(I, mode, nfields, L, digits, symtag=False, symcomp=False, symtype=False):
+def h_flat(I, mode, nfields, L, digits, symtag=False, symcomp=False, symtype=False, stale=False):
     sess, pre_out = _session(I, digits, symcomp)
     mtype, lead, lead_exp, carried = _mode_fields(I, mode, digits)
+    if stale:
+        # a new message may carry a left-over MsgSeqNum (e.g. a decoded message sent on) and / or an
+        # explicit PossDupFlag=N: still a new message, numbered by the session
+        k = I.choice("left_over_header", 4)
+        if k in (1, 3):
+            lead, lead_exp = lead + [(43, "N")], lead_exp + [("43", "N")]
+        if k >= 2:
+            lead = lead + [(34, I.int("stale_seq", 1, 10**digits - 1))]
     if mtype is None:
         mtype = TYPES[I.choice("msg_type_idx", len(TYPES))] if symtype else "D"
     msg = FIXMessage(mtype)
@@ -254,6 +262,8 @@ def cells(tier):
         for nf, L in ((1, 4), (2, 2)) if quick else ((1, 5), (2, 3), (3, 2)):
             flat(f"values/{mode}/{nf}x{L}", mode, nf, L, dg=(digits if mode == "normal" else 2))
         flat(f"types+compids/{mode}", mode, 1, 1, dg=2, symtype=True, symcomp=True)
+        if mode == "normal":
+            flat("left-over-header/normal", mode, 1, 1, dg=2, stale=True)
         if mode != "normal":
             flat(f"counters/{mode}", mode, 1, 1, dg=(4 if mode == "seqreset" else 6))
     flat("tags/normal", "normal", 1, 2, dg=1, symtag=True)
